@@ -7,6 +7,7 @@ CONSTANTS
   MaxSubs = 3
   MaxOps = 6
   UsePlain = FALSE
+  UseBurst = FALSE
   UseBad = TRUE
 INVARIANTS TypeOK C13_OneActive ActiveRegistered RegOK
 PROPERTIES StepsOK
